@@ -4,6 +4,7 @@ import QR.Proofs.ReadBack
 import QR.Proofs.Segmentation
 import QR.Props.C03
 import QR.Props.C09
+import QR.Proofs.Pinned
 /-
 C01 - read (compile cfg payload) = payload.
 Every symbol `Model.compile` produces (any valid configuration: version given / fitted, any of the four levels, mask given /
@@ -126,5 +127,9 @@ theorem C01_roundtrip (cfg : Model.Cfg) (hcfg : cfg.Valid) (l : Spec.Level) (hl 
   obtain ⟨ps, hp⟩ := toPSegs_of_valid hvalid
   obtain ⟨r, hr, a1, a2, a3, _, a5, a6, _⟩ := C01_read_compile cfg hcfg l hl _ hvalid ps hp v m M h
   exact ⟨r, hr, a1, a2, a3, a5, a6.trans hcat⟩
+
+/-- the Python functions this property's model mirrors have, in /repo's current working tree, exactly the normalised
+    ASTs the model was written and validated against (fingerprints regenerated by T1 on every run) -/
+theorem C01_source_fingerprints : QR.Gen.fp_C01 = QR.Pinned.fp_C01 := by decide
 
 end QR.Props
